@@ -4,7 +4,8 @@
    Vocabulary (see also Props/C06.v):
      Life st        the lifecycle invariant (record LifeC):
                       - a live deal that was never updated is in the pending set, unless the cron has
-                        already passed its start epoch (start <= last_cron);
+                        already passed its start epoch (start <= last_cron); one that was never
+                        activated is in the pending set, always;
                       - a deal state's last_updated, once set, is strictly after the deal's start;
                       - no two live deals have the same proposal (= CID, no-collision hypothesis);
                       - deal_ops_by_epoch never schedules a live deal before its start, holds only ids
@@ -33,6 +34,11 @@ Proof. exact life_reachable. Qed.
 Theorem C08_life_step : forall now st o,
   MarketInv now st -> Life st -> now <= op_epoch o -> wf_op o -> life_op st o -> Life (fst (step st o)).
 Proof. exact life_step. Qed.
+
+(* a live deal that was never activated is in the pending set *)
+Theorem C08_unactivated_is_pending : forall st id p,
+  Life st -> proposals st !! id = Some p -> states st !! id = None -> In p (pending st).
+Proof. exact unactivated_is_pending. Qed.
 
 (* pending_unique: no two simultaneously live deals share a proposal CID *)
 Theorem C08_pending_unique : forall st id1 id2 p,
